@@ -162,3 +162,49 @@ def z1elf(prog):
                 findings.append({"key": "Z1e:stv:" + name, "where": sh[0]["l"], "msg": "`%s` (%d) does not round-trip through the vocabulary" % (name, intval(l)), "detail": None})
     inst.append(("Z1e:stv", {"constants": cnt}))
     return inst, findings
+
+
+def w2b(prog):
+    """every constant placed in an ELF symbol domain takes its value through the matching GELF_ST_* extraction macro
+    (a raw st_info / st_other byte carries other fields as well)"""
+    inst, findings = [], []
+    n = 0
+    for f in prog.funcs.values():
+        rel = prog.rel(f["file"])
+        if not (rel.startswith("libzwerg/") or rel.startswith("dwgrep/")) or "/test-" in rel or f["q"].startswith("dwgrep_vocabulary"):
+            continue
+        for x in walk(f.get("body")):
+            val = dom = None
+            if x.get("k") in ("ctor", "ilist") and (x.get("c") == "constant" or x.get("t") == "constant") and len(x.get("a", [])) >= 2 and not x.get("cm"):
+                val, dom = x["a"][0], x["a"][1]
+            elif x.get("k") == "call" and x.get("fn") == "dump_named_constant" and len(x["a"]) >= 3:
+                val, dom = x["a"][1], x["a"][2]
+            if val is None:
+                continue
+            d = unwrap(dom)
+            if isinstance(d, dict) and d.get("k") == "un" and d.get("op") == "&":
+                d = unwrap(d["e"])
+            dn = d.get("fn", "") if isinstance(d, dict) and d.get("k") == "call" else ""
+            fam = None
+            for k in ("stt", "stb", "stv"):
+                if "elfsym_" + k in dn:
+                    fam = k
+            if fam is None:
+                continue
+            fields = {y["n"] for y in walk(val) if y.get("k") == "mem" and y["n"] in ("st_info", "st_other")}
+            if not fields:
+                continue      # not built from a symbol-table entry (e.g. a literal in the vocabulary)
+            n += 1
+            mac = _macro_family(val)
+            key = "W2b:%s@%s" % (f["q"], x.get("l"))
+            inst.append((key, {"domain": fam, "macro": mac, "fields": sorted(fields)}))
+            if mac is None or MACRO_DOM[mac] != fam:
+                findings.append({"key": "W2b:%s:%s" % (f["q"], fam), "where": x.get("l"),
+                                 "msg": "%s builds an %s constant from the raw %s byte without %s: the byte also carries %s, so symbols with those bits set get a value that equals none of the named constants" % (
+                                     f["q"], fam.upper(), "/".join(sorted(fields)),
+                                     {"stt": "GELF_ST_TYPE", "stb": "GELF_ST_BIND", "stv": "GELF_ST_VISIBILITY"}[fam],
+                                     "the binding/type nibble" if fam in ("stt", "stb") else "processor-specific flag bits"),
+                                 "detail": None})
+    if n < 5:
+        raise Broken("only %d ELF-domain constants built from symbol fields found (floor 5)" % n)
+    return inst, findings
